@@ -363,7 +363,7 @@ func checkC01(c *Ctx) {
 	c.Rule("C01.F10", "in Lsh/Rsh/Div and the Sub/Mod/SignedDiv/SignedMod/RshA gadgets the rs1 operand comes first when the other operand is rs2 or an immediate")
 	c.Rule("C01.F11", "W-twin agreement (sibling cross-check): every RV64 entry that the ISA defines as the 32-bit form of an RV32 instruction (mnemonic + 'w', or an atomic '.w') computes, on the path where no register is x0, the same term as its RV32 twin - same operators, operand roles, operation widths and constants - apart from the final sign extension to 64 bits, the 64-bit register-file width and the width of address registers")
 	c.Rule("C01.sem", "reference semantics: for every table entry the lifted effect terms (path without x0 operands), in a canonical form invariant under truncation-transparent widths, operand order of commutative operators, the comparison-helper family and transparent sign/width adapters, equal the canonical form of the instruction's definition in the unprivileged ISA manual (operator, operand roles, comparison polarity, branch targets, access widths, sign extension of loads and word forms, jalr bit 0, mulh/mulhsu/mulhu products, AMO min/max selection)")
-	c.Rule("C01.glue", "Parser.Parse lifts with validEffects(newInstruction(a, bs, matched)) of the matched entry; validEffects calls the entry's effects closure on that instruction and only drops nil effects")
+	c.Rule("C01.glue", "wherever Parser.Parse (or a helper) calls an entry's effects closure, it is the closure of the entry that Match returned, applied to newInstruction(a, bs, matched)")
 
 	c.Rule("C01.pcrel", "the helper that adds a signed 32-bit immediate to an address (PC-relative targets, auipc), walked with the wrap-around of its Go integer types for immediates 0, 1, -1, 2047, -2048, MaxInt32 and MinInt32 at a low and a high address, returns address + sign-extended immediate modulo 2^64")
 	checkPCRelative(c)
@@ -646,24 +646,40 @@ func condStr(cs []absint.CondRec) string {
 
 func checkGlue(c *Ctx) {
 	parse := anchor(c, "("+pkgRiscv+".Parser).Parse")
-	ve := anchor(c, "("+pkgRiscv+".instructionType).validEffects")
-	if parse == nil || ve == nil {
+	if parse == nil {
 		return
 	}
+	// the call of the matched entry's effects closure, wherever it is made (in
+	// Parse, in a method of the entry, in a plain helper)
 	n := 0
-	for _, cs := range CallsTo(parse, ve) {
-		n++
-		a := cs.Common().Args
-		matched := ExtractN(0, Method("Match", Any()))
-		okRecv := matches(a[0], Deref(matched))
-		okIns := matches(a[1], CallTo(pkgRiscv+".newInstruction", ParamN(1), ParamN(2), matched))
-		if okRecv && okIns {
-			c.Pass("C01.glue", ShortName(parse)+"/validEffects", c.Prog.Pos(cs.Pos()), "")
-		} else {
-			c.Fail("C01.glue", ShortName(parse)+"/validEffects", c.Prog.Pos(cs.Pos()), "effects are not produced by the matched entry on newInstruction(a, bs, matched)")
+	for _, s := range DeepCalls(parse, InModulePkg(parse)) {
+		call, ok := s.Instr.(*ssa.Call)
+		if !ok || call.Call.IsInvoke() || call.Call.StaticCallee() != nil {
+			continue
 		}
+		name, base, isField := FieldNameOfRead(call.Call.Value)
+		if !isField || name != "effects" || len(call.Call.Args) != 1 {
+			continue
+		}
+		n++
+		matched := ExtractN(0, Method("Match", Any()))
+		if al, isAl := base.(*ssa.Alloc); isAl && al.Referrers() != nil {
+			// a value receiver (or parameter) spilled into a local
+			for _, r := range *al.Referrers() {
+				if st, isSt := r.(*ssa.Store); isSt && st.Addr == ssa.Value(al) {
+					base = st.Val
+				}
+			}
+		}
+		recv := s.UpRoot(base)
+		okRecv := matches(recv, Deref(matched)) || matches(recv, matched) || DependsOn(recv, func(v ssa.Value) bool { return matches(v, matched) })
+		okIns := matches(s.UpRoot(call.Call.Args[0]), CallTo(pkgRiscv+".newInstruction", ParamN(1), ParamN(2), matched))
+		if os.Getenv("MLTLINT_DEBUG") == "glue" {
+			fmt.Fprintf(os.Stderr, "glue: recv=%v (%T) arg=%v okRecv=%v okIns=%v chain=%d\n", recv, recv, s.UpRoot(call.Call.Args[0]), okRecv, okIns, len(s.Chain))
+		}
+		c.Oblige("C01.glue", ShortName(parse)+"/effects-of-the-matched-entry", c.Prog.Pos(call.Pos()), okRecv && okIns, "effects are not produced by the matched entry on newInstruction(a, bs, matched)")
 	}
-	c.RequireCount("C01.glue validEffects call", n, 1)
+	c.RequireCount("C01.glue call of the matched entry's effects closure reached from Parser.Parse", n, 1)
 }
 
 // ---------------------------------------------------------------- F11
